@@ -187,8 +187,15 @@ func (orderObs) handlerStart(w *world, i int, phase string, status Status) {
 	if phase == "undo" && status != UndoingStatus {
 		w.problem("order: undo handler of t%d started while the task is %s", i, status)
 	}
-	if phase == "do" && w.now.Before(w.notBefore[i]) {
-		w.problem("schedule: do handler of t%d started at +%s before its scheduled time +%s", i, w.now.Sub(w.t0), w.notBefore[i].Sub(w.t0))
+	// the schedule the harness knows about: At() at creation and Retry{After} returned by the do handler bind the
+	// do handler; Retry{After} returned by the undo handler binds the undo handler (an aborted task's undo is not
+	// held back by a retry its do handler had asked for)
+	nb := w.notBefore[i]
+	if phase == "undo" {
+		nb = w.notBeforeUndo[i]
+	}
+	if w.now.Before(nb) {
+		w.problem("schedule: %s handler of t%d started at +%s before its scheduled time +%s", phase, i, w.now.Sub(w.t0), nb.Sub(w.t0))
 	}
 	if phase == "do" {
 		// the wait dependencies must (still) be satisfied whenever the handler (re)starts
@@ -380,6 +387,8 @@ func TestVerifC02(t *testing.T) {
 	cfgs := enumConfigs(ns, sp, false, []int{0, 2})
 	// lanes matter to what gets undone, not to start conditions: one extra family with lanes for n<=3 and a failure
 	cfgs = append(cfgs, enumConfigs([]int{3}, scriptSpace{failDo: 1, requireFail: true, specials: []script{sNoUndo, sWaitDone}, maxSpecial: 1}, true, []int{0})...)
+	// delayed retries in the undo direction (an undo handler returning Retry{After}): needs a failure to start the undo
+	cfgs = append(cfgs, enumConfigs([]int{2, 3}, scriptSpace{failDo: 1, requireFail: true, specials: []script{sUndoRetryAfter, sRetryAfter}, maxSpecial: r.Pick(1, 2)}, false, []int{0, 2})...)
 	r.Info("bounds", map[string]interface{}{"n": ns, "configurations": len(cfgs)})
 	spec := &erRunSpec{prop: "C02", configs: cfgs, al: alphabet{resolve: true, advance: true},
 		newObs: func() observer { return orderObs{} },
